@@ -240,6 +240,14 @@ def run(ctx):
         directed.append(dict(argv=argv, paired=False, reads1=r1, reads2=None, with_qual=True, interleaved_in=False))
     for case, res, real, model in pipe.run_cases(ctx, directed):
         oracle(ctx, case, res, real)
+    # runs that go through the adapter index (several anchored adapters, default mode): every action, one or two rounds
+    def extras(rng):
+        action = rng.choice(["trim", "mask", "lowercase", "retain", "crop", "none"])
+        e = ["--action", action]
+        if action not in ("retain", "crop") and rng.random() < 0.3:
+            e += ["--times", "2"]
+        return e
+    pipeprop.indexed_sweep(ctx, oracle, 90, 2500, extras)
 
 
 def extended_search(ctx):
